@@ -182,6 +182,14 @@ def gen_pair(rng):
         if rng.random() < 0.5: G = set(G) | {(URIRef("urn:x"), P[1], Literal("extra"))}
     elif mode == "other" and fam == "c6":
         H = relabel(rng, {(o, p, s) for s, p, o in fam_cycle(3, "e") | fam_cycle(3, "f")} | fam_cycle(3, "e") | fam_cycle(3, "f"))
+    if rng.random() < 0.25:
+        # a literal (and an xsd:anyURI literal) whose text is the skolem IRI of one of the graph's blank nodes
+        bs = [x for t in G for x in t if isinstance(x, BNode)]
+        if bs:
+            b = sorted(bs, key=str)[0]
+            lit = Literal(str(b.skolemize()), datatype=rng.choice([None, URIRef("http://www.w3.org/2001/XMLSchema#anyURI")]))
+            extra = (URIRef("urn:x"), P[1], lit)
+            G = set(G) | {extra}; H = list(H) + [extra]
     G = sorted(G, key=str)
     return dict(kind="pair", fam=fam, mode=mode, g=[enc_t(t) for t in G], h=[enc_t(t) for t in H])
 
@@ -236,6 +244,18 @@ def run_pair(case, st=None):
             return ("diff-second", "graph_diff: both+second is not isomorphic to g2")
         if want and (sf or ss):
             return ("diff-iso-nonempty", "graph_diff of isomorphic graphs reports differences (%d / %d triples)" % (len(sf), len(ss)))
+        # a to_isomorphic() object that is changed after its digest has been asked for must answer for its new content
+        ig = to_isomorphic(g1)
+        ig == i2
+        extra = (URIRef("urn:x"), P[1], Literal("added-later"))
+        how = len(G) % 3
+        if how == 0: ig.add(extra)
+        elif how == 1: ig.parse(data="<urn:x> <%s> \"added-later\" .\n" % P[1], format="nt")
+        else: ig.update("INSERT DATA { <urn:x> <%s> \"added-later\" }" % P[1])
+        g1x = mk(G + [extra])
+        st["changed-after-digest"] = st.get("changed-after-digest", 0) + 1
+        if not (ig == to_isomorphic(g1x)) or (ig == i1):
+            return ("stale-digest", "a to_isomorphic() graph compared once and then extended (%s) still answers for its old content" % ["add", "parse", "update"][how])
         sk = g1.skolemize()
         back = sk.de_skolemize()
         st["skolem"] = st.get("skolem", 0) + 1
@@ -261,7 +281,7 @@ def lane_pairs(ctx):
 
 LANES = {"pairs": dict(fn=lane_pairs, quick=3000, thorough=60000)}
 WATCHDOG = {"quick": 1500, "thorough": 7200}
-REQUIRED_COUNTERS = {"any": ["cmp:isomorphic", "cmp:isomorphic-true", "cmp:to_isomorphic-eq", "cmp:canonical", "cmp:graph_diff", "cmp:skolem"]}
+REQUIRED_COUNTERS = {"any": ["cmp:changed-after-digest", "cmp:isomorphic", "cmp:isomorphic-true", "cmp:to_isomorphic-eq", "cmp:canonical", "cmp:graph_diff", "cmp:skolem"]}
 
 
 def replay(w):
